@@ -23,14 +23,16 @@ def run(tier, only=None):
         else:
             conds.append(Cond("harness.h_c14", "h_history", t, part=op, label="h_history[depth 2, first: %s]" % OPS[op]))
     if tier != "quick":
-        for op1 in range(9):
-            for op2 in range(9):
-                conds.append(Cond("harness.h_c14", "h_history", t, part=1000 + (op2 + 1) * 100 + op1,
-                                  label="h_history[depth 3, first: %s, second: %s]" % (OPS[op1], OPS[op2])))
+        # depth 3 on a small world (4-node tree + lone node), registry-only operations; first operation and operand pinned
+        for op1 in range(6):
+            for a1 in (range(3) if op1 in (1, 2, 3, 4, 5) else (0,)):
+                for op2 in range(6):
+                    conds.append(Cond("harness.h_c14", "h_history", t, part=1000 + (op2 + 1) * 100 + (a1 + 1) * 10 + op1,
+                                      label="h_history[depth 3 small world, first: %s on held node %d, second: %s]" % (OPS[op1], a1, OPS[op2])))
     if only:
         conds = [c for c in conds if only in c.label]
     rep.bounds = {"world": "dataset{title, creator#c1{organizationName}, contact{references c1}, bogus{title}} plus a lone node; pool grows with copies/imports",
-                  "histories": "depth 2%s over %r; operands: which held node (<= 8/10 positions), delete_old / children / strict flags; first operation and its operand pinned per process"
+                  "histories": "depth 2%s over %r (depth 3: 4-node tree + lone node, the six registry-only operations); operands: which held node (<= 8/10 positions), delete_old / children / strict flags; first operation and its operand pinned per process"
                                % (" and 3" if tier != "quick" else "", OPS)}
     rep.extra["rule"] = "one CrossHair condition per first operation (per pair for depth 3); non-trivial = confirmed over all paths"
     rep.assumptions = ["histories that deliberately reuse an id are excluded (fresh ids for new nodes; re-import only after the subtree was deleted)",
